@@ -287,31 +287,17 @@ def run(ctx, report: Report) -> None:
         pmod = src.mod('css_parser')
         _, pc = src.func('css_parser.CSSParser.parse_pseudo_class')
         flg_html = inv.const('css_parser', 'FLG_HTML')
-        const_flags = {}
-        for st in pmod.tree.body:
-            if isinstance(st, ast.Assign) and isinstance(st.targets[0], ast.Name) and st.targets[0].id.startswith('CSS_'):
-                for c in ast.walk(st.value):
-                    if isinstance(c, ast.Call) and call_name(c).endswith('process_selectors'):
-                        for k in c.keywords:
-                            if k.arg == 'flags':
-                                const_flags[st.targets[0].id] = inv.folder.try_ev('css_parser', k.value, default=0)
-        branch_of = {}
-        for n in ast.walk(pc):
-            if isinstance(n, ast.If) and isinstance(n.test, ast.Compare) and isinstance(n.test.left, ast.Name) and n.test.left.id == 'pseudo':
-                v = inv.folder.try_ev('css_parser', n.test.comparators[0], default=None)
-                if isinstance(v, str) or (isinstance(v, tuple) and len(v) < 6):
-                    for nm in ([v] if isinstance(v, str) else list(v)):
-                        branch_of.setdefault(nm, n)
+        from .sem import const_flags as _cf, pseudo_table
+        const_flags = _cf(ctx)
+        ptab = pseudo_table(ctx)
         _, ps = src.func('css_parser.CSSParser.parse_selectors')
         for nm in names:
             how = None
-            if nm in branch_of:
-                body = branch_of[nm].body
-                consts_used = [x.id for st in body for x in ast.walk(st) if isinstance(x, ast.Name) and x.id in const_flags]
-                sets_marker = any(isinstance(st, ast.Assign) and unparse(st) == 'is_html = True' for st in body)
-                if consts_used and all(const_flags[c] & flg_html for c in consts_used):
-                    how = f'{consts_used[0]} compiled with FLG_HTML'
-                elif sets_marker:
+            if nm in ptab:
+                row = ptab[nm]
+                if row['consts'] and all(const_flags.get(c, 0) & flg_html for c in row['consts']):
+                    how = f'{row["consts"][0]} compiled with FLG_HTML'
+                elif row['is_html']:
                     how = 'sets the HTML-only marker'
             elif nm == ':dir':
                 for n in ast.walk(ps):
